@@ -264,8 +264,9 @@ class PythonTranslator(ASTTranslator):
             result.append(node.step.src)
         return ''.join(result)
     def postConstant(translator, node):
-        node.priority = 1
         value = node.value
+        # a negative number is rendered with a leading minus sign and groups like a unary minus expression: (-2) ** x
+        node.priority = 4 if isinstance(value, (int, float, complex)) and repr(value).startswith('-') else 1
         if type(value) is float: # for Python < 2.7
             s = str(value)
             if float(s) == value: return s
